@@ -12,7 +12,7 @@ from lib import dbcsnap
 from lib import matrices as M
 
 PID = "C05"
-EXTRA_PROPS = ("Num", "C05b", "C05c", "C05d", "C05e", "C05f", "C05g", "C05h", "C05i", "C05j", "C05k")
+EXTRA_PROPS = ("Num", "C05b", "C05c", "C05d", "C05e", "C05f", "C05g", "C05h", "C05i", "C05j", "C05k", "C05l")
 RULE = ("case 'rt' = a generated matrix of DBC-expressible content (identifier names incl. names longer than 32 characters, ECU names "
         "of >= 2 characters, standard/extended ids, CAN FD and J1939 frames, simple and extended multiplexing, float signals, limits, "
         "start values inside the limits and on the raw grid, cycle times, value tables with quotes, comments over several lines with "
@@ -150,8 +150,23 @@ def attr_section(work):
             ecus.setdefault(e.name, [])
             ecus[e.name] += [[k, written(v, work.ecu_defines[k].type == "STRING")] for k, v in sorted(e.attributes.items())]
         ga = [[k, written(v, work.global_defines[k].type == "STRING")] for k, v in sorted(work.attributes.items())]
+        # the attributes of frames and signals, frame by frame in the order of the frame section (the pseudo frame of the signals without
+        # frame is the last frame of the working matrix); a float is written through format_float, an attribute of a signal only if defined
+        frames = []
+        for fr in work.frames:
+            fa = [[k, written(v, work.frame_defines[k].type == "STRING")] for k, v in sorted(fr.attributes.items())]
+            sa = []
+            for sg in fr.signals:
+                one = []
+                for k, v in sorted(sg.attributes.items()):
+                    if isinstance(v, float):
+                        v = canmatrix.formats.dbc.format_float(v)
+                    if k in work.signal_defines:
+                        one.append([k, written(v, work.signal_defines[k].type == "STRING")])
+                sa.append(one)
+            frames.append({"attrs": fa, "sigs": sa})
         sec = {"defs": defs, "defaults": [defaults[k] for k in sorted(defaults)], "gattrs": ga, "ecuattrs": ecus,
-               "ecunames": [e.name for e in work.ecus]}
+               "ecunames": [e.name for e in work.ecus], "frames": frames}
         if any(ch in json.dumps(sec) for ch in ("\\n", "\\r")):
             return None
         return sec
@@ -264,6 +279,14 @@ def cases_of(desc, rng=None):
         for e in cc["ecus"]:
             e["attrs"] = sec["ecuattrs"].get(e["name"], [])
         cc.update({"defs": sec["defs"], "defaults": sec["defaults"], "gattrs": sec["gattrs"]})
+        fr = sec.get("frames")
+        if fr is not None and len(fr) == len(cc["frames"]) and all(len(a["sigs"]) == len(b["sigs"]) for a, b in zip(fr, cc["frames"])):
+            # the attributes of frames and signals (Model/DbcFile.lean writeCoreF)
+            for a, b in zip(fr, cc["frames"]):
+                b["attrs"] = a["attrs"]
+                for x, y in zip(a["sigs"], b["sigs"]):
+                    y["attrs"] = x
+            cc["fattrs"] = True
     yield {"op": "core", "c": cc}
     # the file as a whole against the reader model of Model/DbcFile.lean: as written, and damaged (lines inserted, dropped, cut)
     for variant in range(3):
@@ -482,6 +505,8 @@ def observe_core(c, r):
     if c.get("defs") is not None:
         attr = [l for l in lines if l.startswith("BA_DEF_ ")] + [l for l in lines if l.startswith("BA_DEF_DEF_ ")]
         attr += [l for l in lines if re.match(r'BA_ "[^"]*" BU_ ', l)] + [l for l in lines if re.match(r'BA_ "[^"]*"   ', l)]
+        if c.get("fattrs"):
+            attr += [l for l in lines if re.match(r'BA_ "[^"]*" BO_ ', l)] + [l for l in lines if re.match(r'BA_ "[^"]*" SG_ ', l)]
     vals = [l for l in lines if re.match(r"VAL_ \d+ ", l)]
     vals += [l for l in lines if l.startswith("SIG_VALTYPE_ ")] + [l for l in lines if l.startswith("SIG_GROUP_ ")] + [l for l in lines if l.startswith("SG_MUL_VAL_ ")]
     for kind in kinds:
@@ -802,6 +827,9 @@ def features(case, impl):
                 yield "core:matrix-attributes"
             if any(e.get("attrs") for e in c["ecus"]):
                 yield "core:ecu-attributes"
+        if c.get("fattrs"):
+            yield "core:frame-attributes=%d" % min(sum(len(f.get("attrs", [])) for f in c["frames"]) // 4 * 4, 20)
+            yield "core:signal-attributes=%d" % min(sum(len(sg.get("attrs", [])) for f in c["frames"] for sg in f["sigs"]) // 8 * 8, 40)
         if any(f["more"] for f in c["frames"]):
             yield "core:several-senders"
         if any(f["comment"] and "\n" in f["comment"] for f in c["frames"]) or any(s["comment"] and "\n" in s["comment"] for f in c["frames"] for s in f["sigs"]):
